@@ -60,6 +60,10 @@ def cases(tier, seed):
                 k["SMT"] = [80.0] * 4
             if sp["irr"]["method"] == 5:
                 k["depth"] = 8.0
+        if cls == 4 and i % 10 == 4 and i % 20 == 4:
+            # an evaporation layer that cannot expand, re-wetted from below by net irrigation
+            sp["soil"].setdefault("kw", {})
+            sp["soil"]["kw"]["evap_z_min"] = sp["soil"]["kw"]["evap_z_max"] = float(gen.pick(rng, [0.15, 0.2, 0.3]))
         if cls == 2:
             sp["irr"]["kw"]["WetSurf"] = float(gen.pick(rng, [20, 50, 80, 100]))
         out.append({"spec": sp})
